@@ -36,9 +36,10 @@ func vpNoColon(s string) bool {
 }
 
 //vp:property C19
-//vp:set entries 2 3
+//vp:set entries 2 2
 //vp:set klen 2 3
-//vp:set vlen 2 4
+//vp:set vlen 2 3
+//vp:set budget 300 1200
 //vp:bounds settings maps of 0..entries entries; keys: 1..klen ASCII bytes without ':' CR LF, not starting with '#', no leading/trailing blank, pairwise distinct; values: an int from {0,±1,7,±10,99,100,±9999,2^31-1,-2^31} or an ASCII string of 0..vlen bytes (':' allowed) without CR/LF and without leading/trailing blank
 //vp:assume bytes are ASCII (the scanner/TrimSpace Unicode paths are outside the bound)
 //vp:reach roundtrip
